@@ -39,4 +39,30 @@ PROPS = {
                "any order in [-2pi,2pi], some joints from==to, wrapping) x sorting weights {0,1,0.3,0.5} x dof 5/6 x four entry "
                "points, each run with and without the limits on the same query (cmp2) x wrapper stacks to depth 3 incl. a "
                "parallelogram on top; constraints() of every stack. non-trivial = the constrained run returned a solution"),
+    "C04": cfg(1500, 150000, ["C04."],
+               "hook-level normalize_near / calculate_distance on adversarial pairs (+-pi, +-2pi, signed zero, ties, far previous); "
+               "queries (zoo x pose families x constraint families x sorting weights {0,1,0.3,0.5}) x previous families (origin, "
+               "origin+turns, origin+small, sentinel, far, uniform [-2pi,2pi]) through inverse_continuing, inverse+inverse_continuing "
+               "on the same query (superset) and inverse_continuing_5dof; dense random-walk trajectories of 200 steps where each "
+               "call's previous is the preceding first answer. non-trivial = at least one solution returned"),
+    "C02": cfg(3000, 300000, ["C02."],
+               "robot zoo x random joint vectors kept away from wrist/elbow/shoulder singularities by margins {1e-3,1e-2,1e-1} on "
+               "|sin theta5|, |sin(theta3+psi3)| and |cx1| (computed by the generator and re-checked by the driver's oracle); for "
+               "each: answers of inverse(forward(q)) and the size of the answer set of the pose of every returned solution; every third "
+               "case also the private inverse_intern (hook). non-trivial = at least one answer"),
+    "C05": cfg(1500, 100000, ["C05."],
+               "hook-level is_close_to_multiple_of_pi / are_angles_close on the grid k*pi +- {0, thr/2, thr(1+-1e-6), 2thr, 1e-9, 0.1}, "
+               "k in -4..4; kinematic_singularity through wrapper stacks on robots with J5 offsets and negative J5 sign at the same "
+               "grid in theta-space and at random joints (oracle: angle between the joint-4 and joint-6 axes of the independent link "
+               "chain); inverse_continuing at exactly singular poses (theta5 = 0) on well-conditioned postures with the previous joints "
+               "realising the pose / having another J4-J6 split. non-trivial = every hook/sing line; inverse lines with >= 1 answer"),
+    "C09": cfg(1300, 60000, ["C09.", "C01.fk", "C01.finite", "C03.fwd_eq_chain_ref", "C04.sorted", "C06.j6"],
+               "EXHAUSTIVE delegation matrix: every order of tool/base/frame to depth 2 (quick, 13 stack shapes) resp. 3 (thorough, 40 "
+               "shapes) x general and axial isometries x {forward+links, inverse, inverse_continuing, inverse_5dof, "
+               "inverse_continuing_5dof (axial), kinematic_singularity, constraints()} x robot zoo, with and without limits; "
+               "LinearAxis/Gantry forward incl. invalid axis indices. non-trivial = link/forward lines and inverse lines with >= 1 answer"),
+    "C16": cfg(1500, 90000, ["C16.", "C01.fk", "C01.finite", "C03.fwd_eq_chain_ref", "C03.links_eq_ref"],
+               "all 30 ordered (driven, coupled) index pairs x scalings {+-1, +-2, 0.5, 0, random in [-2,2]} x robot zoo x "
+               "{forward+links, inverse, inverse_continuing, 5-DOF variants} x nestings P, P(T), T(B(P)), P(P). "
+               "non-trivial = link/forward lines and inverse lines with >= 1 answer"),
 }
